@@ -74,7 +74,12 @@ func (w *c19Writer) TsigStatus() error           { return nil }
 func (w *c19Writer) TsigTimersOnly(bool)         {}
 func (w *c19Writer) Hijack()                     {}
 
-var c19Labels = []string{"alice", "bob", "srv", "files", "router", "open", "wpad", "myco", "a-b_c", "x1", "mnchen"}
+// (two long names: 61 and 63 characters per label)
+var c19Labels = []string{"alice", "bob", "srv", "files", "router", "open", "wpad", "myco", "a-b_c", "x1", "mnchen",
+	"l" + strings.Repeat("o", 58) + "ng", strings.Repeat("abcdefg", 9)}
+
+// c19LongName is a valid name of about 170 characters (four labels).
+var c19LongName = strings.Repeat("x", 50) + "." + strings.Repeat("y", 55) + "." + strings.Repeat("z", 60) + ".deep"
 
 const c19IDN, c19Puny = "münchen", "xn--mnchen-3ya"
 
@@ -107,6 +112,9 @@ func TestC19(t *testing.T) {
 			}
 			if c.Chance("resolve.sub", 1, 4) {
 				lbl = "www." + lbl
+			}
+			if c.Chance("resolve.long", 1, 10) {
+				lbl = c19LongName
 			}
 			name := lbl + ".myco"
 			switch c.Pick("resolve.variant", 4) {
@@ -154,6 +162,9 @@ func TestC19(t *testing.T) {
 				}
 				if c.Chance("mapping.deep", 1, 6) {
 					lbl = c19Deep[c.Pick("mapping.deep.name", len(c19Deep))]
+				}
+				if c.Chance("mapping.long", 1, 10) {
+					lbl = c19LongName
 				}
 			}
 			name = lbl + ".myco" // the dashboard stores cleaned names
@@ -280,6 +291,10 @@ func TestC19(t *testing.T) {
 					if c.Chance("q.deep", 1, 6) {
 						lbl = c19Deep[c.Pick("q.deep.name", len(c19Deep))]
 						c.Class("query-below-a-myco-like-label")
+					}
+					if c.Chance("q.long", 1, 8) {
+						lbl = c19LongName
+						c.Class("query-for-a-name-of-170-characters")
 					}
 					qname = lbl + ".myco."
 				case 1:
